@@ -95,6 +95,34 @@ def inserted_and_deleted(setup, work):
     return False
 
 
+def rekeyed_created(setup, work):
+    """final labels of the instances the transaction under test creates AND whose primary key
+    it changes (root cause of finding C35 instance-ends-detached...: _restore_snapshot puts the
+    old key back on an instance it has just expunged to transient)"""
+    created, out = set(), set()
+    for m in work:
+        if m[0] == "new":
+            created.add(m[2])
+        elif m[0] == "rename":
+            for st in (created, out):
+                if m[1] in st:
+                    st.discard(m[1])
+                    st.add(m[2])
+        elif m[0] == "setkey" and m[1] in created:
+            out.add(m[1])
+    return out
+
+
+def cause_suffix(setup, work, o):
+    """the part of a part-A key that names the triggering situation in the input"""
+    bad = verdict(o)
+    if bad and bad[0][0] == "created-instance-not-transient":
+        nt = {l for l, v in o["created_states"].items() if v != ["transient"]}
+        if nt and nt <= rekeyed_created(setup, work):
+            return "-after-primary-key-change-of-an-instance-inserted-in-the-failed-transaction"
+    return "-after-instance-inserted-and-deleted-in-the-failed-transaction" if inserted_and_deleted(setup, work) else ""
+
+
 def _worker(job):
     import random
 
@@ -104,7 +132,7 @@ def _worker(job):
     rng = random.Random(seedstr)
     out = []
     for _ in range(n):
-        prof = rng.choice(["mixed", "o2m", "tree", "m2m", "cycle", "inherit", "oneway", "graph", "unit", "peer", "owner"])
+        prof = rng.choice(["mixed", "o2m", "tree", "m2m", "cycle", "inherit", "oneway", "graph", "unit", "peer", "owner", "composite"])
         setup, work = G.gen_fault_case(rng, prof)
         try:
             ref = G.fault_case(setup, work, ("dml", 10 ** 9))
@@ -134,7 +162,7 @@ def _worker(job):
                 o = G.fault_case(setup, w, ff)
             except RuntimeError:
                 continue
-            out.append((prof, setup, w, list(ff), nd, o.get("error"), verdict(o), inserted_and_deleted(setup, w)))
+            out.append((prof, setup, w, list(ff), nd, o.get("error"), verdict(o), cause_suffix(setup, w, o)))
     return out
 
 
@@ -154,7 +182,7 @@ def run_part_a(ctx, deep=False):
             ctx.count("A:outcome=" + (err or "fault-position-not-reached"))
             ctx.count("A:flush-statements=%s" % ("1-3" if nd < 4 else "4-9" if nd < 10 else "10+"))
             if bad:
-                key = "c32-A:" + bad[0][0] + ("-after-instance-inserted-and-deleted-in-the-failed-transaction" if insdel else "")
+                key = "c32-A:" + bad[0][0] + insdel
                 ctx.count("oracle:" + key)
                 ctx.violation(key, {"part": "A", "setup": setup, "work": work, "fault": fault}, "; ".join("%s: %s" % b for b in bad)[:900])
             elif err and len(ctx.samples) < 4:
@@ -192,7 +220,7 @@ def corpus(ctx):
         bad = verdict(o)
         ctx.case(("corpus", c["work"], c["fault"]))
         if bad:
-            key = "c32-A:" + bad[0][0] + ("-after-instance-inserted-and-deleted-in-the-failed-transaction" if inserted_and_deleted(c["setup"], c["work"]) else "")
+            key = "c32-A:" + bad[0][0] + cause_suffix(c["setup"], c["work"], o)
             ctx.count("oracle:" + key)
             ctx.violation(key, c, "; ".join("%s: %s" % b for b in bad)[:900])
 
@@ -201,7 +229,7 @@ def run(ctx, deep=False):
     from harness import lib_uow_gen as G
 
     ctx.rule = (
-        "part A: generated transactions over fourteen relationship families (harness/lib_graph.py) (0-2 committed setup rounds, then 3-8 mutations), failed at 2 seeded "
+        "part A: generated transactions over fifteen relationship families (harness/lib_graph.py) (0-2 committed setup rounds, then 3-8 mutations), failed at 2 seeded "
         "(quick) / all (thorough) statement positions of their flushes, by one flush-event exception and (half of them) by a unique violation; "
         "part B: seeded random single-class histories (conflicting primary keys, phantom rows, pk changes, savepoints) compared with the "
         "model after every operation; non-trivial = the fault fired (A) / a lifecycle event fired (B)"
